@@ -2707,6 +2707,106 @@ func (t *tr2) admissionDecl(f *ast.File) string {
 	return def
 }
 
+// joinVerifyDecl: the verification of the candidates in Join — the `for _, k := range newItems.Keys() { go func(k
+// string) { … }(k) }` loop, wg.Wait() and the error test that follow it — as "all candidates pass every check".
+// Each goroutine looks its candidate up and runs a sequence of checks, each of the form
+// `if inErr := <check>; inErr != nil { setErr(…); return }`; a check is the access controller's CanAppend on the
+// candidate or the candidate's Verify (abstract predicates here: signatures and policies are C06/C07's business).
+// The goroutines only ever set one shared error, so their interleaving does not matter: the result is the
+// conjunction over the candidates (and the join fails iff it is false).  The nil/undefined test on a value looked
+// up under a key of the same map is dead and dropped.
+func (t *tr2) joinVerifyDecl(f *ast.File) string {
+	fd := findMethod(f, "Join")
+	if fd == nil || fd.Body == nil {
+		return t.fail(&ast.BlockStmt{}, "Join not found")
+	}
+	recv := ""
+	if fd.Recv != nil && len(fd.Recv.List) == 1 && len(fd.Recv.List[0].Names) == 1 {
+		recv = fd.Recv.List[0].Names[0].Name
+	}
+	for i, st := range fd.Body.List {
+		rs, ok := st.(*ast.RangeStmt)
+		if !ok || len(rs.Body.List) != 1 {
+			continue
+		}
+		gs, ok := rs.Body.List[0].(*ast.GoStmt)
+		if !ok {
+			continue
+		}
+		fl, ok := gs.Call.Fun.(*ast.FuncLit)
+		if !ok || src(t.fset, rs.X) != "newItems.Keys()" || rs.Value == nil || len(gs.Call.Args) != 1 || src(t.fset, gs.Call.Args[0]) != src(t.fset, rs.Value) {
+			return t.fail(rs, "shape of the verification loop")
+		}
+		if fl.Type.Params == nil || len(fl.Type.Params.List) != 1 || len(fl.Type.Params.List[0].Names) != 1 {
+			return t.fail(fl, "parameters of the verification goroutine")
+		}
+		kName := fl.Type.Params.List[0].Names[0].Name
+		// after the loop: wg.Wait(); if err != nil { return nil, … }
+		if i+2 >= len(fd.Body.List) || src(t.fset, fd.Body.List[i+1]) != "wg.Wait()" {
+			return t.fail(rs, "wg.Wait() must follow the verification loop")
+		}
+		ifs, ok := fd.Body.List[i+2].(*ast.IfStmt)
+		if !ok || ifs.Init != nil || src(t.fset, ifs.Cond) != "err != nil" || !terminates(ifs.Body.List) {
+			return t.fail(fd.Body.List[i+2], "the error test must follow wg.Wait()")
+		}
+		if r, ok := ifs.Body.List[len(ifs.Body.List)-1].(*ast.ReturnStmt); !ok || len(r.Results) != 2 || !isNil(r.Results[0]) || isNil(r.Results[1]) {
+			return t.fail(ifs, "a failed verification must return (nil, error)")
+		}
+		var checks []string
+		eName := ""
+		for _, b := range fl.Body.List {
+			txt := src(t.fset, b)
+			if txt == "defer wg.Done()" {
+				continue
+			}
+			if as, ok := b.(*ast.AssignStmt); ok && as.Tok == token.DEFINE && len(as.Lhs) == 1 && len(as.Rhs) == 1 && eName == "" {
+				if src(t.fset, as.Rhs[0]) == "newItems.UnsafeGet("+kName+")" {
+					eName = src(t.fset, as.Lhs[0])
+					continue
+				}
+			}
+			is, ok := b.(*ast.IfStmt)
+			if !ok || eName == "" || is.Else != nil || len(is.Body.List) != 2 {
+				return t.fail(b, "statement of the verification goroutine")
+			}
+			if c, ok := is.Body.List[0].(*ast.ExprStmt); !ok || !strings.HasPrefix(src(t.fset, c), "setErr(") {
+				return t.fail(b, "a failing check must record the error")
+			}
+			if r, ok := is.Body.List[1].(*ast.ReturnStmt); !ok || len(r.Results) != 0 {
+				return t.fail(b, "a failing check must end the goroutine")
+			}
+			if is.Init == nil {
+				c := src(t.fset, is.Cond)
+				if c == eName+" == nil || !"+eName+".Defined()" || c == eName+" == nil" || c == "!"+eName+".Defined()" {
+					continue // dead: the key comes from the same map
+				}
+				return t.fail(b, "check of the verification goroutine")
+			}
+			as, ok := is.Init.(*ast.AssignStmt)
+			if !ok || len(as.Lhs) != 1 || len(as.Rhs) != 1 || src(t.fset, is.Cond) != src(t.fset, as.Lhs[0])+" != nil" {
+				return t.fail(b, "check of the verification goroutine")
+			}
+			call, ok := as.Rhs[0].(*ast.CallExpr)
+			if !ok {
+				return t.fail(b, "check of the verification goroutine")
+			}
+			switch fn := selChain(call.Fun); {
+			case fn == recv+".AccessController.CanAppend" && len(call.Args) >= 1 && src(t.fset, call.Args[0]) == eName:
+				checks = append(checks, "canAppend e")
+			case fn == eName+".Verify":
+				checks = append(checks, "verify e")
+			default:
+				return t.fail(b, "unknown check "+fn)
+			}
+		}
+		if len(checks) == 0 {
+			return t.fail(rs, "no check in the verification goroutine")
+		}
+		return "def joinVerify (canAppend verify : Entry → Bool) (newItems : List Entry) : Bool :=\n  newItems.all (fun e => " + strings.Join(checks, " && ") + ")\n"
+	}
+	return t.fail(fd, "verification loop of Join not found")
+}
+
 // fromEntryDecls: the two pure parts of fromEntry (log_io.go) around the fetch — the fetch length, and what is
 // made of the fetched entries (the entries are a parameter)
 func (t *tr2) fromEntryDecls(f *ast.File) string {
@@ -3023,7 +3123,7 @@ func renderSlices(repo string) map[string]string {
 		{"Heads", []job{{"entry/utils.go", []string{"FindHeads"}}}},
 		{"NewLog", []job{{"log.go", []string{"#newLog"}}}},
 		{"Traverse", []job{{"log.go", []string{"traverse"}}}},
-		{"Join", []job{{"log.go", []string{"difference"}}}},
+		{"Join", []job{{"log.go", []string{"difference", "#joinVerify"}}}},
 		{"Fetcher", []job{{"entry/fetcher.go", []string{"updateClock", "addNextEntry", "#admission"}}}},
 		{"JoinTail", []job{{"log.go", []string{"Join@join.publish"}}}},
 		{"Iterator", []job{{"log.go", []string{"sortedHeads", "Iterator"}}}},
@@ -3087,6 +3187,10 @@ func renderSlices(repo string) map[string]string {
 				}
 				if n == "#fromEntryHash" {
 					fmt.Fprintf(&b, "/-- `fromEntryHash` (%s) around the fetch -/\n%s\n", j.file, cleanDecl(t.fromEntryHashDecls(f)))
+					continue
+				}
+				if n == "#joinVerify" {
+					fmt.Fprintf(&b, "/-- the verification of the candidates in `Join` (%s) -/\n%s\n", j.file, cleanDecl(t.joinVerifyDecl(f)))
 					continue
 				}
 				if n == "#admission" {
